@@ -59,6 +59,8 @@ BASE_NB = A.prog(
         A.sub("n", A.gate("CX", "c", A.item("a", 0)), A.loop(2, A.seq(A.gate("m", "c", 0.25)))),
         A.loop("n", A.seq(A.sub(None, A.gate("X", A.item("q", "k"))))),
         A.gate("m", A.item("q", 0), 1.0),
+        # a native gate with an INT parameter called at top level with an integral float (only the 'nb' table has it)
+        A.gate("Wt", A.item("q", 1), 2.0),
     ),
 )
 
@@ -70,6 +72,7 @@ def table(mode):
     if mode == "nb":
         t.pop("prepare_all")
         t.pop("measure_all")
+        t["Wt"] = impl.GateDefinition("Wt", [impl.Parameter("q", impl.ParamType.QUBIT), impl.Parameter("n", impl.ParamType.INT)])
     return t
 
 
